@@ -143,8 +143,24 @@ def run(ctx):
         def bad(kind, mech, **more):
             ctx.violation(kind, dict(conf, **more), mechanism=mech)
 
-        # --- weights form (contracts run inside)
-        r_w = outcome(dc, uid, pop, list(w))
+        # --- weights form (contracts run inside); every eighth configuration under a 3-digit decimal context of the host
+        if ci % 8 == 7:
+            import decimal
+
+            hostctx = decimal.localcontext()
+            hc = hostctx.__enter__()
+            hc.prec, hc.rounding = 3, decimal.ROUND_UP
+        else:
+            hostctx = None
+        try:
+            r_w = outcome(dc, uid, pop, list(w))
+            r_w2 = outcome(dc, uid, pop, cum_weights=list(accumulate(w)))
+        finally:
+            if hostctx is not None:
+                hostctx.__exit__(None, None, None)
+        if hostctx is not None and r_w[0] == "ok" and not same_result(r_w, r_w2):
+            bad("weights-and-running-totals-differ", "C16/cum-weights-not-equivalent", host="decimal context of 3 digits")
+            continue
         ctx.evaluated()
         if r_w[0] == "contract":
             bad("contract-broken", "C16/" + ("not-a-member" if "element" in r_w[1] else "argument-modified"), detail=r_w[1], form="weights")
